@@ -3,6 +3,7 @@ package main
 import (
 	"bytes"
 	"fmt"
+	"os"
 	"strings"
 
 	xh2 "golang.org/x/net/http2"
@@ -15,7 +16,11 @@ import (
 // srcSwitches re-reads the go/ast switches of the tree the harness was built against.
 func srcSwitches() map[string]bool {
 	out := map[string]bool{}
-	txt, err := genH2Src("/repo")
+	repo := os.Getenv("VERIF_REPO")
+	if repo == "" {
+		repo = "/repo"
+	}
+	txt, err := genH2Src(repo)
 	if err != nil {
 		return out
 	}
@@ -52,6 +57,9 @@ func framesStreams(run *Run, ss *shardSet, prop string, valid bool, nseq int, ev
 	sw := srcSwitches()
 	cont := sw["h2_dispatch_continues"]
 	for s := 0; s < nseq; s++ {
+		if abortRun {
+			return
+		}
 		g := newSeqGen(r)
 		nfr := 1 + r.Intn(run.N(5, 8))
 		for i := 0; i < nfr; i++ {
@@ -158,6 +166,9 @@ func framesWriters(run *Run, ss *shardSet, n int) {
 		return fmt.Sprintf("(Some %s)", CoqN(uint64(k)))
 	}
 	for i := 0; i < n; i++ {
+		if abortRun {
+			return
+		}
 		var w bytes.Buffer
 		xf := xh2.NewFramer(&w, nil)
 		fc := &fakeConn{}
